@@ -22,6 +22,32 @@ def _molecule_positions(rnd, k):
     return pos
 
 
+_DEFAULT_NAMES = {"disp": "default_displacement_move", "cell": "default_cell_move", "exch": "default_exchange_move"}
+
+
+def _constructor_route(rnd, driver, moves):
+    """Hand elementary moves to the driver's constructor (default_*_move=) instead of add_move: they get the default
+    names, default criteria and default probabilities; the user may then change the entry's probability."""
+    def refs(m):
+        if m["type"] == "ref":
+            yield m["of"]
+        for x in m.get("items", []) + ([m["item"]] if "item" in m else []):
+            yield from refs(x)
+    referenced = {r for e in moves for r in refs(e["move"])}
+    allowed = {"Canonical": ("disp",), "Isobaric": ("disp", "cell"), "Isotension": ("disp", "cell"),
+               "GrandCanonical": ("disp", "exch")}.get(driver, ())
+    used = set()
+    for e in moves:
+        t = e["move"]["type"]
+        if (t in allowed and t not in used and "criteria" not in e and e.get("name") not in referenced
+                and not e.get("minimum_count") and e.get("interval", 1) == 1):
+            used.add(t)
+            e["name"] = _DEFAULT_NAMES[t]
+            e["via"] = "constructor"
+            if rnd.random() < 0.4:
+                e.pop("probability", None)  # keep the driver's default probability
+
+
 def gen_history(rnd: random.Random, flavor: dict) -> dict:
     """flavor keys: drivers, calc_styles, scale ('moderate'|'extreme'), constraints (prob),
     arrays (prob), p_force, p_veto, composites (prob), extended (prob), bare (prob),
@@ -160,6 +186,10 @@ def gen_history(rnd: random.Random, flavor: dict) -> dict:
             sc["free_exchange_composite"] = True
             moves.append({"name": "xfree", "criteria": "GrandCanonical", "probability": gen.rfloat(rnd, 0.5, 2.0, 3),
                           "move": {"type": "wrap", "items": [copy.deepcopy(exch), copy.deepcopy(exch)]}})
+        if ecomp and rnd.random() < flavor.get("leaf_alone", 0.2):
+            # an elementary exchange move of the composite entry is ALSO registered on its own (the same object)
+            moves.append({"name": "xalone", "move": {"type": "ref", "of": "exch", "leaf": 0},
+                          "probability": gen.rfloat(rnd, 0.5, 2.0, 3)})
         if rnd.random() < ext_p:
             which = rnd.choice(["ref", "mixed", "nested_ref"])
             if which == "nested_ref" and any(m["name"] == "disp" and m["move"]["type"] == "disp" for m in moves):
@@ -245,6 +275,8 @@ def gen_history(rnd: random.Random, flavor: dict) -> dict:
         if free > 0 and rnd.random() < 0.25:
             m["minimum_count"] = 1
             free -= 1
+    if rnd.random() < flavor.get("constructor_route", 0.15):
+        _constructor_route(rnd, driver, moves)
     sc["moves"] = moves
     sc["params"] = params
     nsteps = rnd.randint(1, flavor.get("steps_max", 10))
@@ -499,11 +531,18 @@ class HistoryCampaign(Campaign):
         return [self.monitor_cls()]
 
     def execute(self, sc):
-        mons = self.make_monitors(sc)
+        w, failed = self.build_world(sc, self.make_monitors(sc))
+        if failed is not None:
+            return failed
+        res = w.run()
+        return res.pack()
+
+    def build_world(self, sc, mons, disk=None):
+        """-> (world, None), or (None, packed result) when the package refuses the generated (legal) deployment while
+        it is being assembled."""
         try:
-            w = make_world(sc, mons, self.world_opts)
+            return make_world(sc, mons, self.world_opts, disk), None
         except Exception as exc:  # noqa: BLE001
-            # the package refusing a generated (legal) deployment while it is being assembled
             from simkit.core import RunResult, classify_exception
 
             info = classify_exception(exc)
@@ -513,9 +552,7 @@ class HistoryCampaign(Campaign):
             elif not self.on_build_exception(sc, info, res):
                 res.foreign.append({k: info[k] for k in ("type", "where", "owner")} | {"phase": "build"})
                 res.count("foreign_exception")
-            return res.pack()
-        res = w.run()
-        return res.pack()
+            return None, res.pack()
 
     def on_build_exception(self, sc, info, res) -> bool:
         return False
